@@ -64,6 +64,11 @@ async fn asynchronous(worterbuch: &CloneableWbApi, config: &Config) -> Persisten
         last_persisted,
     ) = file_paths(config, true).await?;
 
+    // The checksum of the grave goods / last will file is written last. Removing it first marks this
+    // set of files as incomplete until all of its files have been replaced, so that files of
+    // different flushes are never loaded together.
+    remove_file(&grave_goods_last_will_path_checksum).await.ok();
+
     let json = json.to_string();
     write_and_check(json.as_bytes(), &store_path, &store_path_checksum).await?;
 
@@ -77,6 +82,8 @@ async fn asynchronous(worterbuch: &CloneableWbApi, config: &Config) -> Persisten
         &grave_goods_last_will_path_checksum,
     )
     .await?;
+
+    select_written_files(config).await?;
 
     #[cfg(feature = "verif")]
     crate::verif::crash_point("flush.before_timestamp")?;
@@ -103,6 +110,11 @@ pub(crate) async fn synchronous(
         last_persisted,
     ) = file_paths(config, true).await?;
 
+    // The checksum of the grave goods / last will file is written last. Removing it first marks this
+    // set of files as incomplete until all of its files have been replaced, so that files of
+    // different flushes are never loaded together.
+    remove_file(&grave_goods_last_will_path_checksum).await.ok();
+
     debug!("Exporting database state …");
     let (data, grave_goods, last_will) = worterbuch.export();
     debug!("Exporting database state done.");
@@ -120,6 +132,8 @@ pub(crate) async fn synchronous(
         &grave_goods_last_will_path_checksum,
     )
     .await?;
+
+    select_written_files(config).await?;
 
     #[cfg(feature = "verif")]
     crate::verif::crash_point("flush.before_timestamp")?;
@@ -200,55 +214,50 @@ async fn validate_file_content<P: AsRef<Path> + Debug>(
 
 #[instrument(skip(config) fields(version=3), err)]
 pub async fn load(config: &Config) -> PersistenceResult<Worterbuch> {
+    // The selected slot is the one the last completed flush wrote. Store and grave goods / last
+    // wills are always taken from the same slot, so that a store is never combined with the
+    // registrations of another flush.
+    match load_slot(config, false).await {
+        Ok(wb) => Ok(wb),
+        Err(e) => {
+            warn!("Could not load selected persistence files: {e}");
+            info!("Trying to load the other set of persistence files …");
+            load_slot(config, true).await
+        }
+    }
+}
+
+async fn load_slot(config: &Config, unselected: bool) -> PersistenceResult<Worterbuch> {
     let (
         store_path,
         store_path_checksum,
         grave_goods_last_will_path,
         grave_goods_last_will_path_checksum,
         _,
-    ) = file_paths(config, false).await?;
+    ) = file_paths(config, unselected).await?;
 
-    let mut wb = match try_load(&store_path, &store_path_checksum, config).await {
-        Ok(worterbuch) => Ok(worterbuch),
-        Err(e) => {
-            warn!(
-                "Could not load persistence file {}: {e}",
-                store_path.to_string_lossy()
-            );
-            let (store_path, store_path_checksum, _, _, _) = file_paths(config, true).await?;
-            info!(
-                "Trying to load persistence file {} …",
-                store_path.to_string_lossy()
-            );
-            try_load(&store_path, &store_path_checksum, config).await
-        }
-    }?;
+    let mut wb = try_load(&store_path, &store_path_checksum, config).await?;
 
-    if let Ok(grave_goods_last_will) = match try_load_grave_goods_last_will(
+    let grave_goods_last_will = match try_load_grave_goods_last_will(
         &grave_goods_last_will_path,
         &grave_goods_last_will_path_checksum,
     )
     .await
     {
-        Ok(gglw) => Ok(gglw),
+        Ok(gglw) => Some(gglw),
+        // the unselected slot may belong to a flush that never completed: without its own
+        // grave goods and last wills it must not be used
+        Err(e) if unselected => return Err(e),
         Err(e) => {
             warn!(
                 "Could not load persistence file {}: {e}",
                 grave_goods_last_will_path.to_string_lossy()
             );
-            let (_, _, grave_goods_last_will_path, grave_goods_last_will_path_checksum, _) =
-                file_paths(config, true).await?;
-            info!(
-                "Trying to load persistence file {} …",
-                grave_goods_last_will_path.to_string_lossy()
-            );
-            try_load_grave_goods_last_will(
-                &grave_goods_last_will_path,
-                &grave_goods_last_will_path_checksum,
-            )
-            .await
+            None
         }
-    } {
+    };
+
+    if let Some(grave_goods_last_will) = grave_goods_last_will {
         wb.apply_grave_goods(grave_goods_last_will.grave_goods)
             .await;
         wb.apply_last_wills(grave_goods_last_will.last_will).await;
@@ -334,40 +343,35 @@ pub(crate) async fn file_paths(
     ))
 }
 
+/// Returns `true` for the main (`a`) set of files. With `write == false` that is the set the
+/// selector file currently points to, with `write == true` it is the other one. The selector itself
+/// is only moved by `select_written_files`, once a set of files has been written completely.
 #[instrument(level=Level::DEBUG, ret, err)]
 async fn toggle_alternating_files(path: &Path, write: bool) -> PersistenceResult<bool> {
-    if write {
-        if remove_file(path).await.is_ok() {
-            #[cfg(feature = "verif")]
-            crate::verif::crash_point("toggle.removed")?;
-            debug!(
-                "toggle file {} removed, writing to backup",
-                path.to_string_lossy()
-            );
-            Ok(false)
-        } else {
-            File::create(path).await?;
-            #[cfg(feature = "verif")]
-            crate::verif::crash_point("toggle.created")?;
-            debug!(
-                "toggle file {} created, writing to main",
-                path.to_string_lossy()
-            );
-            Ok(true)
-        }
-    } else if File::open(path).await.is_ok() {
-        debug!(
-            "toggle file {} exists, reading from main",
-            path.to_string_lossy()
-        );
-        Ok(true)
+    let main_selected = File::open(path).await.is_ok();
+    if main_selected {
+        debug!("toggle file {} exists, main is selected", path.to_string_lossy());
     } else {
         debug!(
-            "toggle file {} does not exists, reading from backup",
+            "toggle file {} does not exist, backup is selected",
             path.to_string_lossy()
         );
-        Ok(false)
     }
+    Ok(main_selected != write)
+}
+
+/// Makes the set of files that has just been written the selected one.
+#[instrument(level=Level::DEBUG, skip(config), err)]
+async fn select_written_files(config: &Config) -> PersistenceResult<()> {
+    let mut toggle_path = PathBuf::from(&config.data_dir);
+    toggle_path.push(".toggle");
+    if remove_file(&toggle_path).await.is_ok() {
+        debug!("toggle file {} removed", toggle_path.to_string_lossy());
+    } else {
+        File::create(&toggle_path).await?;
+        debug!("toggle file {} created", toggle_path.to_string_lossy());
+    }
+    Ok(())
 }
 
 #[instrument(level=Level::DEBUG, skip(data), ret)]
